@@ -6,7 +6,8 @@
 use crate::wire::*;
 use crate::Ctx;
 use similari::prelude::*;
-use similari::track::{ObservationMetricOk, Track};
+use similari::track::utils::FromVec;
+use similari::track::{Feature, ObservationMetricOk, Track};
 use similari::trackers::batch::PredictionBatchRequest;
 use similari::trackers::sort::batch_api::BatchSort;
 use similari::trackers::sort::metric::SortMetric;
@@ -14,12 +15,22 @@ use similari::trackers::sort::simple_api::Sort;
 use similari::trackers::sort::{PositionalMetricType, SortAttributes, SortAttributesUpdate, VotingType};
 use similari::trackers::spatio_temporal_constraints::SpatioTemporalConstraints;
 use similari::trackers::tracker_api::TrackerAPI;
+use similari::trackers::visual_sort::batch_api::BatchVisualSort;
+use similari::trackers::visual_sort::metric::{VisualMetric, VisualSortMetricType};
+use similari::trackers::visual_sort::observation_attributes::VisualObservationAttributes;
+use similari::trackers::visual_sort::options::VisualSortOptions;
+use similari::trackers::visual_sort::simple_api::VisualSort;
+use similari::trackers::visual_sort::track_attributes::{VisualAttributes, VisualAttributesUpdate};
+use similari::trackers::visual_sort::{VisualSortObservation, WastedVisualSortTrack};
+use similari::utils::clipping::bbox_own_areas::{exclusively_owned_areas, exclusively_owned_areas_normalized_shares};
 use std::collections::HashMap;
 
 pub enum Trk {
     None,
     Sort(Sort),
     BatchSort(BatchSort),
+    Visual(VisualSort),
+    BatchVisual(BatchVisualSort),
 }
 impl Default for Trk {
     fn default() -> Self {
@@ -30,14 +41,17 @@ impl Default for Trk {
 #[derive(Default)]
 pub struct TrkCtx {
     pub t: Trk,
+    pub visual: bool,
+    pub own_area: bool,
     pub shards: usize,
     pub tokens: HashMap<(u32, u32), usize>,
+    pub feat_tokens: HashMap<(u32, u32), usize>,
     pub next_tok: usize,
     /// per scene: canonical record stream (ids renamed by first appearance within the scene)
     pub log: HashMap<u64, Vec<String>>,
     pub log_ids: HashMap<u64, Vec<String>>,
-    pub consumer_delay_us: u64,
     pub rename: HashMap<u64, HashMap<u64, usize>>,
+    pub consumer_delay_us: u64,
 }
 
 #[derive(Default)]
@@ -51,6 +65,12 @@ pub struct DetIn {
     pub bbox: Universal2DBox,
     pub custom: Option<i64>,
     pub tok: usize,
+    pub quality: Option<f32>,
+    pub feature: Option<Vec<f32>>,
+}
+
+fn feat_key(f: &[f32]) -> (u32, u32) {
+    (f[0].to_bits(), f[1 % f.len()].to_bits())
 }
 
 fn det(c: &mut TrkCtx, t: &mut Toks) -> DetIn {
@@ -63,10 +83,22 @@ fn det(c: &mut TrkCtx, t: &mut Toks) -> DetIn {
     let custom = t.opt_i64();
     c.next_tok += 1;
     c.tokens.insert((xc.to_bits(), yc.to_bits()), c.next_tok);
+    let (mut quality, mut feature) = (None, None);
+    if c.visual {
+        quality = t.opt_f32();
+        let n = t.usize();
+        if n > 0 {
+            let f: Vec<f32> = (0..n).map(|_| t.f32()).collect();
+            c.feat_tokens.insert(feat_key(&f), c.next_tok);
+            feature = Some(f);
+        }
+    }
     DetIn {
         bbox: Universal2DBox::new_with_confidence(xc, yc, angle, aspect, height, conf),
         custom,
         tok: c.next_tok,
+        quality,
+        feature,
     }
 }
 
@@ -76,6 +108,16 @@ fn opt_i(x: Option<i64>) -> String {
 
 fn tok_of(c: &TrkCtx, b: &Universal2DBox) -> usize {
     *c.tokens.get(&(b.xc.to_bits(), b.yc.to_bits())).unwrap_or(&0)
+}
+
+fn ftok_of(c: &TrkCtx, f: &Option<Feature>) -> usize {
+    match f {
+        None => 0,
+        Some(f) => {
+            let v: Vec<f32> = Vec::from_vec(f);
+            *c.feat_tokens.get(&(v[0].to_bits(), v[1].to_bits())).unwrap_or(&0)
+        }
+    }
 }
 
 fn echo_ok(input: &Universal2DBox, out: &Universal2DBox) -> bool {
@@ -88,6 +130,13 @@ fn echo_ok(input: &Universal2DBox, out: &Universal2DBox) -> bool {
         && ang(input.angle) == ang(out.angle)
 }
 
+fn vt_bit(v: VotingType) -> usize {
+    match v {
+        VotingType::Visual => 1,
+        VotingType::Positional => 0,
+    }
+}
+
 fn log_records(c: &mut TrkCtx, scene: u64, recs: &[SortTrack]) {
     let ren = c.rename.entry(scene).or_default();
     let log = c.log.entry(scene).or_default();
@@ -97,17 +146,13 @@ fn log_records(c: &mut TrkCtx, scene: u64, recs: &[SortTrack]) {
     for r in recs {
         let n = ren.len();
         let o = *ren.entry(r.id).or_insert(n);
-        let vt = match r.voting_type {
-            VotingType::Visual => 1,
-            VotingType::Positional => 0,
-        };
         line.push_str(&format!(
             "[{} e{} l{} c{} v{} {:08x} {:08x}]",
             o,
             r.epoch,
             r.length,
             opt_i(r.custom_object_id),
-            vt,
+            vt_bit(r.voting_type),
             r.observed_bbox.xc.to_bits(),
             r.observed_bbox.yc.to_bits()
         ));
@@ -139,10 +184,6 @@ fn show_records(c: &TrkCtx, dets: &[DetIn], recs: &[SortTrack]) -> String {
     let mut s = format!("R {}", recs.len());
     for (i, r) in recs.iter().enumerate() {
         let e = dets.get(i).map(|d| echo_ok(&d.bbox, &r.observed_bbox)).unwrap_or(false);
-        let vt = match r.voting_type {
-            VotingType::Visual => 1,
-            VotingType::Positional => 0,
-        };
         s.push_str(&format!(
             " {} {} {} {} {} {} {} {}",
             r.id,
@@ -150,7 +191,7 @@ fn show_records(c: &TrkCtx, dets: &[DetIn], recs: &[SortTrack]) -> String {
             r.scene_id,
             r.length,
             opt_i(r.custom_object_id),
-            vt,
+            vt_bit(r.voting_type),
             if e { 1 } else { 0 },
             tok_of(c, &r.observed_bbox)
         ));
@@ -159,6 +200,7 @@ fn show_records(c: &TrkCtx, dets: &[DetIn], recs: &[SortTrack]) -> String {
 }
 
 type STrack = Track<SortAttributes, SortMetric, Universal2DBox>;
+type VTrack = Track<VisualAttributes, VisualMetric, VisualObservationAttributes>;
 
 fn dump_sort_track(c: &TrkCtx, t: &STrack) -> String {
     let a = t.get_attributes();
@@ -175,36 +217,70 @@ fn dump_sort_track(c: &TrkCtx, t: &STrack) -> String {
     )
 }
 
-fn dump_sort_store<T: TrackerAPI<SortAttributes, SortMetric, Universal2DBox, similari::trackers::sort::SortAttributesOptions, NoopNotifier>>(
-    c: &TrkCtx,
-    tr: &T,
-) -> String {
-    let mut out = String::new();
-    for (name, wasted) in [("L", false), ("W", true)] {
-        let mut v: Vec<(u64, String)> = Vec::new();
-        for k in 0..c.shards {
-            let st = if wasted { tr.get_wasted_store() } else { tr.get_main_store() };
-            let g = st.get_store(k);
-            for (id, t) in g.iter() {
-                v.push((*id, dump_sort_track(c, t)));
-            }
-        }
-        v.sort_by_key(|e| e.0);
-        out.push_str(&format!(" {} {}", name, v.len()));
-        for (_, d) in v {
-            out.push(' ');
-            out.push_str(&d);
-        }
+/// a VisualSORT track: the SORT part, then `V vcount vt featHistory gallery(k (quality featTok hasBox)*)`
+fn dump_vis_track(c: &TrkCtx, t: &VTrack) -> String {
+    let a = t.get_attributes();
+    let obs: Vec<usize> = a.observed_boxes.iter().map(|b| tok_of(c, b)).collect();
+    let fh: Vec<usize> = a.observed_features.iter().map(|f| ftok_of(c, f)).collect();
+    let mut s = format!(
+        "{} {} {} {} {} {} {} V {} {} {}",
+        t.get_track_id(),
+        a.scene_id,
+        a.last_updated_epoch,
+        a.track_length,
+        opt_i(a.custom_object_id),
+        nat_list(&obs),
+        a.predicted_boxes.len(),
+        a.visual_features_collected_count,
+        a.voting_type.map(vt_bit).map(|x| x.to_string()).unwrap_or("-".into()),
+        nat_list(&fh)
+    );
+    let empty = Vec::new();
+    let g = t.get_observations(0).unwrap_or(&empty);
+    s.push_str(&format!(" {}", g.len()));
+    for o in g {
+        let at = o.attr().as_ref().unwrap();
+        s.push_str(&format!(
+            " {} {} {}",
+            f32_tok(at.visual_quality()),
+            ftok_of(c, o.feature()),
+            if at.bbox_opt().is_some() { 1 } else { 0 }
+        ));
     }
-    let a = tr.active_shard_stats();
-    let w = tr.wasted_shard_stats();
-    out.push_str(&format!(" A {} X {}", nat_list(&a), nat_list(&w)));
-    out
+    s
 }
 
-fn show_table(v: Vec<ObservationMetricOk<Universal2DBox>>, base: u64) -> String {
-    let mut v: Vec<_> = v.into_iter().map(|e| (e.from - base, e.to, e.attribute_metric, e.feature_distance)).collect();
-    v.sort_by(|a, b| (a.0, a.1).cmp(&(b.0, b.1)));
+macro_rules! dump_store {
+    ($c:expr, $tr:expr, $dump:ident) => {{
+        let mut out = String::new();
+        for (name, wasted) in [("L", false), ("W", true)] {
+            let mut v: Vec<(u64, String)> = Vec::new();
+            for k in 0..$c.shards {
+                let st = if wasted { $tr.get_wasted_store() } else { $tr.get_main_store() };
+                let g = st.get_store(k);
+                for (id, t) in g.iter() {
+                    v.push((*id, $dump($c, t)));
+                }
+            }
+            v.sort_by_key(|e| e.0);
+            out.push_str(&format!(" {} {}", name, v.len()));
+            for (_, d) in v {
+                out.push(' ');
+                out.push_str(&d);
+            }
+        }
+        let a = $tr.active_shard_stats();
+        let w = $tr.wasted_shard_stats();
+        out.push_str(&format!(" A {} X {}", nat_list(&a), nat_list(&w)));
+        out
+    }};
+}
+
+const CAND_BASE: u64 = 1 << 40;
+
+fn show_table<OA: similari::track::ObservationAttributes<MetricObject = f32>>(v: Vec<ObservationMetricOk<OA>>) -> String {
+    let mut v: Vec<_> = v.into_iter().map(|e| (e.from - CAND_BASE, e.to, e.attribute_metric, e.feature_distance)).collect();
+    v.sort_by(|a, b| (a.0, a.1, a.2.map(|x| x.to_bits()), a.3.map(|x| x.to_bits())).cmp(&(b.0, b.1, b.2.map(|x| x.to_bits()), b.3.map(|x| x.to_bits()))));
     let mut s = format!("K {}", v.len());
     for (f, t, a, d) in v {
         s.push_str(&format!(" {} {} {} {}", f, t, opt_f32_tok(a), opt_f32_tok(d)));
@@ -212,35 +288,80 @@ fn show_table(v: Vec<ObservationMetricOk<Universal2DBox>>, base: u64) -> String 
     s
 }
 
-const CAND_BASE: u64 = 1 << 40;
-
 /// the distances a SORT-kind predict for `scene` is about to see
-fn sort_table<T: TrackerAPI<SortAttributes, SortMetric, Universal2DBox, similari::trackers::sort::SortAttributesOptions, NoopNotifier>>(
-    tr: &mut T,
-    scene: u64,
-    dets: &[DetIn],
-) -> String {
-    let epoch = tr.current_epoch_with_scene(scene) + 1;
-    let cands: Vec<STrack> = dets
-        .iter()
-        .enumerate()
-        .map(|(i, d)| {
-            tr.get_main_store()
-                .new_track(CAND_BASE + i as u64)
-                .observation(
-                    ObservationBuilder::new(0)
-                        .observation_attributes(d.bbox.clone())
-                        .track_attributes_update(SortAttributesUpdate::new_with_scene(epoch, scene, d.custom))
-                        .build(),
-                )
-                .build()
-                .unwrap()
-        })
-        .collect();
-    let (ok, err) = tr.get_main_store_mut().foreign_track_distances(cands, 0, false);
-    let v = ok.all();
-    let _ = err.all();
-    show_table(v, CAND_BASE)
+macro_rules! sort_table {
+    ($tr:expr, $scene:expr, $dets:expr) => {{
+        let epoch = $tr.current_epoch_with_scene($scene) + 1;
+        let cands: Vec<STrack> = $dets
+            .iter()
+            .enumerate()
+            .map(|(i, d)| {
+                $tr.get_main_store()
+                    .new_track(CAND_BASE + i as u64)
+                    .observation(
+                        ObservationBuilder::new(0)
+                            .observation_attributes(d.bbox.clone())
+                            .track_attributes_update(SortAttributesUpdate::new_with_scene(epoch, $scene, d.custom))
+                            .build(),
+                    )
+                    .build()
+                    .unwrap()
+            })
+            .collect();
+        let (ok, err) = $tr.get_main_store_mut().foreign_track_distances(cands, 0, false);
+        let v = ok.all();
+        let _ = err.all();
+        show_table(v)
+    }};
+}
+
+/// own-area shares as the VisualSORT prologue computes them
+fn own_shares(c: &TrkCtx, dets: &[DetIn]) -> Vec<Option<f32>> {
+    if !c.own_area {
+        return dets.iter().map(|_| None).collect();
+    }
+    let boxes: Vec<&Universal2DBox> = dets.iter().map(|d| &d.bbox).collect();
+    exclusively_owned_areas_normalized_shares(boxes.as_ref(), exclusively_owned_areas(boxes.as_ref()).as_ref())
+        .into_iter()
+        .map(Some)
+        .collect()
+}
+
+/// the distances a VisualSORT predict for `scene` is about to see, plus per detection `area share|-`
+macro_rules! vis_table {
+    ($c:expr, $tr:expr, $scene:expr, $dets:expr) => {{
+        let epoch = $tr.current_epoch_with_scene($scene) + 1;
+        let shares = own_shares($c, $dets);
+        let cands: Vec<VTrack> = $dets
+            .iter()
+            .enumerate()
+            .map(|(i, d)| {
+                let q = d.quality.unwrap_or(1.0);
+                let attrs = match shares[i] {
+                    Some(p) => VisualObservationAttributes::with_own_area_percentage(q, d.bbox.clone(), p),
+                    None => VisualObservationAttributes::new(q, d.bbox.clone()),
+                };
+                let mut ob = ObservationBuilder::new(0).observation_attributes(attrs);
+                if let Some(f) = &d.feature {
+                    ob = ob.observation(Feature::from_vec(f.to_vec()));
+                }
+                $tr.get_main_store()
+                    .new_track(CAND_BASE + i as u64)
+                    .observation(ob.track_attributes_update(VisualAttributesUpdate::new_init_with_scene(epoch, $scene, d.custom)).build())
+                    .build()
+                    .unwrap()
+            })
+            .collect();
+        let (ok, err) = $tr.get_main_store_mut().foreign_track_distances(cands, 0, false);
+        let v = ok.all();
+        let _ = err.all();
+        let mut s = show_table(v);
+        s.push_str(&format!(" G {}", $dets.len()));
+        for (i, d) in $dets.iter().enumerate() {
+            s.push_str(&format!(" {} {}", f32_tok(d.bbox.area()), opt_f32_tok(shares[i])));
+        }
+        s
+    }};
 }
 
 fn constraints(t: &mut Toks) -> Option<SpatioTemporalConstraints> {
@@ -257,6 +378,91 @@ fn method(t: &mut Toks) -> PositionalMetricType {
         "iou" => PositionalMetricType::IoU(t.f32()),
         _ => PositionalMetricType::Mahalanobis,
     }
+}
+
+fn vobs<'a>(d: &'a DetIn) -> VisualSortObservation<'a> {
+    VisualSortObservation::new(d.feature.as_deref(), d.quality, d.bbox.clone(), d.custom)
+}
+
+/// run `f` on the tracker in a helper thread; a hang (deadlock) is reported after `secs` seconds and the
+/// tracker is abandoned with the stuck thread
+fn with_watchdog<T: Send + 'static, R: Send + 'static>(tr: T, secs: u64, f: impl FnOnce(&mut T) -> R + Send + 'static) -> Option<(T, R)> {
+    let (tx, rx) = std::sync::mpsc::channel();
+    std::thread::spawn(move || {
+        let mut tr = tr;
+        let r = f(&mut tr);
+        let _ = tx.send((tr, r));
+    });
+    rx.recv_timeout(std::time::Duration::from_secs(secs)).ok()
+}
+
+fn collect_batch(delay_us: u64, res: similari::trackers::batch::PredictionBatchResult) -> (Vec<(u64, Vec<SortTrack>)>, String) {
+    let mut got: Vec<(u64, Vec<SortTrack>)> = Vec::new();
+    if delay_us > 0 {
+        // a slow consumer: with the bounded(1) channel at most one result can have been sent meanwhile
+        std::thread::sleep(std::time::Duration::from_micros(delay_us));
+        crate::sched::log_event('P', crate::sched::sent_so_far());
+    }
+    for _ in 0..res.batch_size() {
+        let r = res.get();
+        crate::sched::log_event('R', r.0);
+        got.push(r);
+    }
+    // the monitor decrements may still be in flight: wait for them before reading the log
+    for _ in 0..200 {
+        let done = crate::sched::EVENTS.lock().unwrap().iter().filter(|e| e.1 == 'M').count();
+        if done >= got.len() {
+            break;
+        }
+        std::thread::sleep(std::time::Duration::from_micros(200));
+    }
+    got.sort_by_key(|e| e.0);
+    (got, show_events())
+}
+
+fn sort_wasted(c: &TrkCtx, tr: STrack) -> String {
+    let wt: similari::trackers::sort::WastedSortTrack = tr.into();
+    format!("{} {} {} {} {}", wt.id, wt.scene_id, wt.epoch, wt.length, nat_list(&wt.observed_boxes.iter().map(|b| tok_of(c, b)).collect::<Vec<_>>()))
+}
+
+fn vis_wasted(c: &TrkCtx, tr: VTrack) -> String {
+    let wt: WastedVisualSortTrack = tr.into();
+    format!("{} {} {} {} {}", wt.id, wt.scene_id, wt.epoch, wt.length, nat_list(&wt.observed_boxes.iter().map(|b| tok_of(c, b)).collect::<Vec<_>>()))
+}
+
+macro_rules! api_op {
+    ($c:expr, $s:expr, $op:expr, $t:expr, $dump:ident, $wasted:ident) => {{
+        let res: String = match $op {
+            "skip" => {
+                let scene = $t.u64();
+                let n = $t.usize();
+                $s.skip_epochs_for_scene(scene, n);
+                "OK".to_string()
+            }
+            "wasted" => {
+                let mut w: Vec<String> = $s.wasted().into_iter().map(|tr| $wasted($c, tr)).collect();
+                w.sort_by_key(|e| e.split(' ').next().unwrap().parse::<u64>().unwrap());
+                format!("H {} {}", w.len(), w.join(" "))
+            }
+            "idle" => {
+                let scene = $t.u64();
+                let mut ids: Vec<usize> = $s.idle_tracks_with_scene(scene).iter().map(|r| r.id as usize).collect();
+                ids.sort();
+                format!("I {}", nat_list(&ids))
+            }
+            "clearw" => {
+                $s.clear_wasted();
+                "OK".into()
+            }
+            "setaw" => {
+                $s.set_auto_waste($t.usize());
+                "OK".into()
+            }
+            "epoch" => format!("E {}", $s.current_epoch_with_scene($t.u64())),
+            x => format!("UNKNOWN-OP {x}"),
+        };
+        format!("{}{}", res, dump_store!($c, $s, $dump))
+    }};
 }
 
 pub fn exec(ctx: &mut Ctx, t: &mut Toks) -> String {
@@ -290,12 +496,9 @@ pub fn exec(ctx: &mut Ctx, t: &mut Toks) -> String {
         let a = t.usize();
         let b = t.usize();
         let scene = t.u64();
-        let empty: Vec<String> = Vec::new();
         let pick = |c: &TrkCtx| if first == "cmpids" { c.log_ids.get(&scene).cloned() } else { c.log.get(&scene).cloned() };
-        let la_v = slots.slots.get(a).and_then(pick).unwrap_or_default();
-        let lb_v = slots.slots.get(b).and_then(pick).unwrap_or_default();
-        let (la, lb) = (&la_v, &lb_v);
-        let _ = &empty;
+        let la = slots.slots.get(a).and_then(pick).unwrap_or_default();
+        let lb = slots.slots.get(b).and_then(pick).unwrap_or_default();
         if la == lb {
             return format!("SAME {}", la.len());
         }
@@ -315,6 +518,47 @@ pub fn exec(ctx: &mut Ctx, t: &mut Toks) -> String {
             let minconf = t.f32();
             let cons = constraints(t);
             c.shards = shards;
+            c.visual = kind == "visual" || kind == "bvisual";
+            if c.visual {
+                // `V euclid|cosine thr minVotes minLen maxObs qUse qCollect minArea ownUse ownCollect`
+                assert_eq!(t.next(), "V");
+                let vk = match t.next() {
+                    "cosine" => VisualSortMetricType::cosine(t.f32()),
+                    _ => VisualSortMetricType::euclidean(t.f32()),
+                };
+                let min_votes = t.usize();
+                let min_len = t.usize();
+                let max_obs = t.usize();
+                let q_use = t.f32();
+                let q_collect = t.f32();
+                let min_area = t.f32();
+                let own_use = t.f32();
+                let own_collect = t.f32();
+                c.own_area = own_use + own_collect > 0.0;
+                let mut o = VisualSortOptions::default()
+                    .max_idle_epochs(max_idle)
+                    .kept_history_length(hist)
+                    .visual_metric(vk)
+                    .positional_metric(m)
+                    .positional_min_confidence(minconf)
+                    .visual_min_votes(min_votes)
+                    .visual_minimal_track_length(min_len)
+                    .visual_max_observations(max_obs)
+                    .visual_minimal_quality_use(q_use)
+                    .visual_minimal_quality_collect(q_collect)
+                    .visual_minimal_area(min_area)
+                    .visual_minimal_own_area_percentage_use(own_use)
+                    .visual_minimal_own_area_percentage_collect(own_collect);
+                if let Some(cs) = cons {
+                    o = o.spatio_temporal_constraints(cs);
+                }
+                c.t = if kind == "visual" {
+                    Trk::Visual(VisualSort::new(shards, &o))
+                } else {
+                    Trk::BatchVisual(BatchVisualSort::new(shards, vshards, &o))
+                };
+                return "OK".into();
+            }
             c.t = match kind {
                 "sort" => Trk::Sort(Sort::new(shards, hist, max_idle, m, minconf, cons, 1.0 / 20.0, 1.0 / 160.0)),
                 "bsort" => Trk::BatchSort(BatchSort::new(shards, vshards, hist, max_idle, m, minconf, cons, 1.0 / 20.0, 1.0 / 160.0)),
@@ -338,52 +582,95 @@ pub fn exec(ctx: &mut Ctx, t: &mut Toks) -> String {
             match &mut tr {
                 Trk::Sort(s) => {
                     let (scene, dets) = &scenes[0];
-                    out.push_str(&sort_table(s, *scene, dets));
+                    out.push_str(&sort_table!(s, *scene, dets));
                     let input: Vec<(Universal2DBox, Option<i64>)> = dets.iter().map(|d| (d.bbox.clone(), d.custom)).collect();
                     let recs = s.predict_with_scene(*scene, &input);
                     log_records(c, *scene, &recs);
                     out.push_str(&format!(" S {} {}", scene, show_records(c, dets, &recs)));
-                    out.push_str(&dump_sort_store(c, s));
+                    out.push_str(&dump_store!(c, s, dump_sort_track));
+                }
+                Trk::Visual(s) => {
+                    let (scene, dets) = &scenes[0];
+                    out.push_str(&vis_table!(c, s, *scene, dets));
+                    let input: Vec<VisualSortObservation> = dets.iter().map(vobs).collect();
+                    let recs = s.predict_with_scene(*scene, &input);
+                    log_records(c, *scene, &recs);
+                    out.push_str(&format!(" S {} {}", scene, show_records(c, dets, &recs)));
+                    out.push_str(&dump_store!(c, s, dump_vis_track));
                 }
                 Trk::BatchSort(s) => {
                     for (scene, dets) in &scenes {
-                        out.push_str(&format!(" Q {} {}", scene, sort_table(s, *scene, dets)));
-                    }
-                    let (mut req, res) = PredictionBatchRequest::<(Universal2DBox, Option<i64>)>::new();
-                    for (scene, dets) in &scenes {
-                        for d in dets {
-                            req.add(*scene, (d.bbox.clone(), d.custom));
-                        }
+                        out.push_str(&format!(" Q {} {}", scene, sort_table!(s, *scene, dets)));
                     }
                     crate::sched::EVENTS.lock().unwrap().clear();
-                    s.predict(req);
-                    let mut got: Vec<(u64, Vec<SortTrack>)> = Vec::new();
-                    if c.consumer_delay_us > 0 {
-                        // a slow consumer: with the bounded(1) channel at most one result can have been sent meanwhile
-                        std::thread::sleep(std::time::Duration::from_micros(c.consumer_delay_us));
-                        crate::sched::log_event('P', crate::sched::sent_so_far());
-                    }
-                    for _ in 0..res.batch_size() {
-                        let r = res.get();
-                        crate::sched::log_event('R', r.0);
-                        got.push(r);
-                    }
-                    // the monitor decrements may still be in flight: wait for them before reading the log
-                    for _ in 0..200 {
-                        let done = crate::sched::EVENTS.lock().unwrap().iter().filter(|e| e.1 == 'M').count();
-                        if done >= got.len() {
-                            break;
+                    let delay = c.consumer_delay_us;
+                    let sc2 = scenes.clone();
+                    let owned = std::mem::replace(&mut tr, Trk::None);
+                    let Trk::BatchSort(bs) = owned else { unreachable!() };
+                    match with_watchdog(bs, 20, move |s: &mut BatchSort| {
+                        let (mut req, res) = PredictionBatchRequest::<(Universal2DBox, Option<i64>)>::new();
+                        for (scene, dets) in &sc2 {
+                            for d in dets {
+                                req.add(*scene, (d.bbox.clone(), d.custom));
+                            }
                         }
-                        std::thread::sleep(std::time::Duration::from_micros(200));
+                        s.predict(req);
+                        collect_batch(delay, res)
+                    }) {
+                        None => {
+                            c.t = Trk::None;
+                            return "PANIC deadlock: batch predict / retrieval did not finish within 20 s".into();
+                        }
+                        Some((bs, (got, tr_s))) => {
+                            tr = Trk::BatchSort(bs);
+                            trace_suffix = tr_s;
+                            for (scene, recs) in got {
+                                let dets = &scenes.iter().find(|e| e.0 == scene).map(|e| e.1.clone()).unwrap_or_default();
+                                log_records(c, scene, &recs);
+                                out.push_str(&format!(" S {} {}", scene, show_records(c, dets, &recs)));
+                            }
+                            if let Trk::BatchSort(s) = &tr {
+                                out.push_str(&dump_store!(c, s, dump_sort_track));
+                            }
+                        }
                     }
-                    trace_suffix = show_events();
-                    got.sort_by_key(|e| e.0);
-                    for (scene, recs) in got {
-                        let dets = &scenes.iter().find(|e| e.0 == scene).map(|e| e.1.clone()).unwrap_or_default();
-                        log_records(c, scene, &recs);
-                        out.push_str(&format!(" S {} {}", scene, show_records(c, dets, &recs)));
+                }
+                Trk::BatchVisual(s) => {
+                    for (scene, dets) in &scenes {
+                        out.push_str(&format!(" Q {} {}", scene, vis_table!(c, s, *scene, dets)));
                     }
-                    out.push_str(&dump_sort_store(c, s));
+                    crate::sched::EVENTS.lock().unwrap().clear();
+                    let delay = c.consumer_delay_us;
+                    let sc2 = scenes.clone();
+                    let owned = std::mem::replace(&mut tr, Trk::None);
+                    let Trk::BatchVisual(bs) = owned else { unreachable!() };
+                    match with_watchdog(bs, 20, move |s: &mut BatchVisualSort| {
+                        let (mut req, res) = PredictionBatchRequest::<VisualSortObservation>::new();
+                        for (scene, dets) in &sc2 {
+                            for d in dets {
+                                req.add(*scene, vobs(d));
+                            }
+                        }
+                        s.predict(req);
+                        collect_batch(delay, res)
+                    }) {
+                        None => {
+                            c.t = Trk::None;
+                            return "PANIC deadlock: batch predict / retrieval did not finish within 20 s".into();
+                        }
+                        Some((bs, (got, tr_s))) => {
+                            tr = Trk::BatchVisual(bs);
+                            trace_suffix = tr_s;
+                            for (scene, recs) in got {
+                                let dets = &scenes.iter().find(|e| e.0 == scene).map(|e| e.1.clone()).unwrap_or_default();
+                                log_records(c, scene, &recs);
+                                out.push_str(&format!(" S {} {}", scene, show_records(c, dets, &recs)));
+                            }
+                            if let Trk::BatchVisual(s) = &tr {
+                                out.push_str(&dump_store!(c, s, dump_vis_track));
+                            }
+                        }
+                    }
                 }
                 Trk::None => out.push_str("NO-TRACKER"),
             }
@@ -398,56 +685,14 @@ pub fn exec(ctx: &mut Ctx, t: &mut Toks) -> String {
         op => {
             let mut tr = std::mem::take(&mut c.t);
             let out = match &mut tr {
-                Trk::Sort(s) => api_op(c, s, op, t, |s, scene| s.idle_tracks_with_scene(scene)),
-                Trk::BatchSort(s) => api_op(c, s, op, t, |s, scene| s.idle_tracks_with_scene(scene)),
+                Trk::Sort(s) => api_op!(c, s, op, t, dump_sort_track, sort_wasted),
+                Trk::BatchSort(s) => api_op!(c, s, op, t, dump_sort_track, sort_wasted),
+                Trk::Visual(s) => api_op!(c, s, op, t, dump_vis_track, vis_wasted),
+                Trk::BatchVisual(s) => api_op!(c, s, op, t, dump_vis_track, vis_wasted),
                 Trk::None => "NO-TRACKER".into(),
             };
             c.t = tr;
             out
         }
     }
-}
-
-fn api_op<T, F>(c: &TrkCtx, s: &mut T, op: &str, t: &mut Toks, idle: F) -> String
-where
-    T: TrackerAPI<SortAttributes, SortMetric, Universal2DBox, similari::trackers::sort::SortAttributesOptions, NoopNotifier>,
-    F: Fn(&mut T, u64) -> Vec<SortTrack>,
-{
-    let res = match op {
-        "skip" => {
-            let scene = t.u64();
-            let n = t.usize();
-            s.skip_epochs_for_scene(scene, n);
-            "OK".to_string()
-        }
-        "wasted" => {
-            let mut w: Vec<String> = s
-                .wasted()
-                .into_iter()
-                .map(|tr| {
-                    let wt: similari::trackers::sort::WastedSortTrack = tr.into();
-                    format!("{} {} {} {} {}", wt.id, wt.scene_id, wt.epoch, wt.length, nat_list(&wt.observed_boxes.iter().map(|b| tok_of(c, b)).collect::<Vec<_>>()))
-                })
-                .collect();
-            w.sort_by_key(|e| e.split(' ').next().unwrap().parse::<u64>().unwrap());
-            format!("H {} {}", w.len(), w.join(" "))
-        }
-        "idle" => {
-            let scene = t.u64();
-            let mut ids: Vec<usize> = idle(s, scene).iter().map(|r| r.id as usize).collect();
-            ids.sort();
-            format!("I {}", nat_list(&ids))
-        }
-        "clearw" => {
-            s.clear_wasted();
-            "OK".into()
-        }
-        "setaw" => {
-            s.set_auto_waste(t.usize());
-            "OK".into()
-        }
-        "epoch" => format!("E {}", s.current_epoch_with_scene(t.u64())),
-        x => return format!("UNKNOWN-OP {x}"),
-    };
-    format!("{}{}", res, dump_sort_store(c, s))
 }
